@@ -56,10 +56,14 @@ mod raw {
         ];
         posix::poll(&mut fds, timeout)?;
 
+        // POLLERR must count as "ready": a pipe whose other end is gone reports
+        // it, and the read or write that follows returns the actual error (or
+        // EOF).  Ignoring it would make a stream that can no longer block look
+        // like a timeout.
         Ok((
-            fds[0].test(posix::POLLOUT | posix::POLLHUP),
-            fds[1].test(posix::POLLIN | posix::POLLHUP),
-            fds[2].test(posix::POLLIN | posix::POLLHUP),
+            fds[0].test(posix::POLLOUT | posix::POLLHUP | posix::POLLERR),
+            fds[1].test(posix::POLLIN | posix::POLLHUP | posix::POLLERR),
+            fds[2].test(posix::POLLIN | posix::POLLHUP | posix::POLLERR),
         ))
     }
 
